@@ -85,6 +85,9 @@ def bind(chk: Check, tier: str, seed: int):
         defs = defs[::3]
     convertible = {c["qty"] for c in conv}
     n_conv = 0
+    PQ_NAMES = {q.name for q in PhysicalQuantities}
+    UNIT_TEXTS = ["c", "F", "bar", "PSI", "deg", "kts"]
+    n_cross_maps: set = set()
     for d in defs:
         qtys = {f["qty"] for f in d["fields"]}
         payloads = [("base", corpus.build_payload(d, {}))]
@@ -105,8 +108,20 @@ def bind(chk: Check, tier: str, seed: int):
                 continue
             rel = [pm for pm in PREFS if set(pm) & qtys] or PREFS[:1]
             extra = [pm for pm in PREFS if not (set(pm) & qtys)]
-            for pm in rel + (rng.sample(extra, 1) if extra else []):
-                dec = decs[json.dumps(pm, sort_keys=True)]
+            # a unit text the library knows, asked for a quantity it does not belong to (bar for a temperature, C for
+            # an electrical charge, deg for a latitude): an unrecognised preference, which must change nothing
+            cross = []
+            if tag == "base" or tag.startswith("rand0"):
+                cross = [{q: u} for q in sorted(qtys) if q in PQ_NAMES for u in UNIT_TEXTS
+                         if not any(c["qty"] == q and c["want"] == u.lower() for c in conv)]
+                if tier != "thorough":
+                    cross = rng.sample(cross, min(len(cross), 6))
+            for pm in rel + (rng.sample(extra, 1) if extra else []) + cross:
+                key = json.dumps(pm, sort_keys=True)
+                if key not in decs:
+                    decs[key] = NMEA2000Decoder(preferred_units={PhysicalQuantities[k]: v for k, v in pm.items()})
+                    n_cross_maps.add(key)
+                dec = decs[key]
                 try:
                     m1 = dec.decode_basic_string(s, already_combined=True)
                 except Exception as e:     # noqa: BLE001
